@@ -5,6 +5,8 @@ CONSTANTS
   PT0MC <- PT3
   PPagesMC <- PP6
   MaxReq = 3
+  MaxHost = 2
+  ReleaseSrcEarly = FALSE
   ReplySlot = "hold"
-INVARIANTS NoReplyDropped ContentsPreserved TableMapsToDestination NoAlias OthersUnchanged CopyOnlyWhenQuiet OnePageAtATime HandshakeOrder ReplyOnce
+INVARIANTS NoReplyDropped ContentsPreserved TableMapsToDestination NoAlias HeldApart OthersUnchanged CopyOnlyWhenQuiet OnePageAtATime HandshakeOrder ReplyOnce
 CHECK_DEADLOCK FALSE
